@@ -2,7 +2,7 @@
    Only pinned statements, `exact`, Examples by vm_compute, and Print Assumptions. *)
 From Coq Require Import String List NArith ZArith PArith Bool FMapPositive.
 From Sylt Require Import Syntax.Resolved Types.TyGraph Types.Tc Types.Ctx Types.TcInv Types.Reject Types.Mismatch
-  Types.CopyInst Types.Calls Types.CallsDecl.
+  Types.CopyInst Types.Calls Types.CallsDecl Types.BlobFields.
 Import ListNotations.
 Local Open Scope string_scope.
 
@@ -160,6 +160,27 @@ Theorem C03_variable_uses_stmt : forall name v kind b tsp value dsp e stm,
        SDefinition dname dvar dkind dty' (plug_e e stm C) dsp' :: post)) <> Ok tt.
 Proof. exact CallsDecl.C03_var_use_stmt_rejected. Qed.
 
+(* After the declaration `B :: blob { .., k: t, .. }` (field k declared with the leaf type t), an instantiation
+   `B { .., k: lit, .. }` whose initialiser for k is a literal of another type, anywhere inside the value of a later
+   top-level definition: the type checker does not return Ok. *)
+Theorem C03_blob_field_type : forall name v sp tvars bfields k b pre lit post self isp ta,
+  rigid_base b = true -> In k (map fst bfields) ->
+  (forall ksp t, In (k, (ksp, t)) bfields -> exists tsp, t = TResolved b tsp) ->
+  lit_type lit = Some ta -> rigid ta = true -> base_head b <> ta ->
+  let e := EBlob v (pre ++ (k, lit) :: post) self isp in
+  forall pre' mid post' dname dvar dkind dty (C : ectx) dsp sp0 fuel vars,
+    typecheck fuel (mkResolved vars
+      (pre' ++ SBlob name v sp tvars bfields false :: mid ++
+       SDefinition dname dvar dkind dty (plug_e e (SStatementExpression e sp0) C) dsp :: post')) <> Ok tt.
+Proof. exact BlobFields.C03_blob_field_type_rejected. Qed.
+
+(* two types with components of different leaf types at the same position do not unify *)
+Theorem C03_component_conflict : forall g sp a b s ha hb x ca cb ta tb,
+  wf s -> head s a = Some ha -> head s b = Some hb -> kid ha x = Some ca -> kid hb x = Some cb ->
+  head s ca = Some ta -> rigid ta = true -> head s cb = Some tb -> rigid tb = true -> ta <> tb ->
+  notok (unify (gfix g) sp a b s).
+Proof. exact BlobFields.unify_kid_conflict. Qed.
+
 (* the local facts behind C03_calls, in any state in which the signature invariant holds *)
 Theorem C03_call_value_has_result_type : forall kinds g v ps rb,
   (forall n b, nth_error ps n = Some b -> rigid_base b = true) -> rigid_base rb = true ->
@@ -286,7 +307,23 @@ Proof. vm_compute. reflexivity. Qed.
 Example C03_example_fdecl_annotated : annotated [("p", 3%N, spl 1, TResolved BInt (spl 1))] [BInt].
 Proof. constructor; [|constructor]. repeat eexists. Qed.
 
+(* B :: blob { x: int } ; start :: fn do B { x: "a" } end *)
+Definition progb (body : list stmt) : resolved :=
+  mkResolved [mkVar 0 "start" sp0 true Const; mkVar 1 "B" (spl 1) true Const; mkVar 2 "self" (spl 3) false Const]
+             [SBlob "B" 1 (spl 1) [] [("x", (spl 1, TResolved BInt (spl 1)))] false;
+              SDefinition "start" 0 Const (TImplied sp0)
+                          (EFunction "lambda" [] (TResolved BVoid sp0) body false sp0) sp0].
+Example C03_example_blob_field_ok :
+  typecheck 60 (progb [SStatementExpression (EBlob 1 [("x", EInt 1 (spl 3))] 2 (spl 3)) (spl 3)]) = Ok tt.
+Proof. vm_compute. reflexivity. Qed.
+Example C03_example_blob_field_rejects :
+  typecheck 60 (progb [SStatementExpression (EBlob 1 [("x", EStr "a" (spl 3))] 2 (spl 3)) (spl 3)])
+  = Err (mkErr KMismatch (spl 3)) [].
+Proof. vm_compute. reflexivity. Qed.
+
 Print Assumptions C03_placement.
+Print Assumptions C03_blob_field_type.
+Print Assumptions C03_component_conflict.
 Print Assumptions C03_component_keeps_leaf_type.
 Print Assumptions C03_instance_keeps_leaf_components.
 Print Assumptions C03_calls.
